@@ -13,7 +13,7 @@ except ImportError:
 
 import contextlib
 from collections import deque
-from errno import EINTR, EWOULDBLOCK
+from errno import EINTR, ENOBUFS, EWOULDBLOCK
 from os import read as fd_read, write as fd_write
 from sys import getdefaultencoding
 
@@ -171,7 +171,8 @@ class File(Component):
             if nbytes < len(data):
                 self._buffer.appendleft(data[nbytes:])
         except OSError as e:
-            if e.args[0] in (EWOULDBLOCK, EINTR):
+            if e.args[0] in (EWOULDBLOCK, EINTR, ENOBUFS):
+                self._buffer.appendleft(data)
                 return
             self.fire(error(e))
             self._close()
